@@ -19,13 +19,6 @@ variable {σ α β : Type}
 /-- the element reads every block completely and runs into its end -/
 def Whole (e : ElR σ α β) : Prop := ∀ s b, b.length ≤ (e.run s b).2.2.1 ∧ (e.run s b).2.2.2 = true
 
-/-- a Run element seen as an element of `Model/C16.lean` (forgetting how much it read) -/
-def ElR.toEl (e : ElR σ α β) : El σ α β where
-  fill s _ := s
-  req s := ([], s)
-  reset := e.reset
-  run s b := ((e.run s b).1, (e.run s b).2.1)
-
 /-- **The clause at full strength**: whatever the flags, `run` around any Run element yields what the element yields
 for each consecutive block of `n` values handed to it (and the loop ends). -/
 def run_blocks_full : Prop :=
@@ -168,6 +161,17 @@ theorem run_blocks_buffer_input (e : ElR σ α β) (N : Nat) (hN : 0 < N) (rst :
   unfold runRunP
   simp only [Bool.false_eq_true, if_false, if_true]
   rw [runRunBIP_toEl e N rst _ xs s (Nat.le_refl _), runRunBI_spec _ _ _ hN _ xs s (Nat.le_refl _), specBlocksP_toEl]
+  rfl
+
+/-- **After notes/C16_defect_1.patch** (`_run_run` skips what the element left unread of its block, and counts it)
+the three loops are those of `Model/C16.lean` applied to the element that forgets how much it read, and the clause
+holds at full strength for every Run element. -/
+theorem run_blocks_after_patch (e : ElR σ α β) (c : Cfg) (hN : 0 < c.bufsize) (hk : c.runKind = .runRun) (s : σ)
+    (xs : List α) :
+    (runFR e.toEl c s xs).1 = specBlocksP e c.bufsize c.reset c.yor s (chunks c.bufsize xs) := by
+  rw [run_blocks e.toEl c hN, specBlocksP_toEl]
+  unfold blockOf
+  rw [hk]
   rfl
 
 /-- the elements of `Model/C16.lean` read their whole block (the hypothesis is satisfiable) -/
